@@ -1,6 +1,7 @@
 import Driver.Util
 import BSEModel.ManipOps
 import BSEModel.Canon
+import BSEModel.Validator
 import BSEGen.Api
 import BSEGen.Manip
 open Lean BSE BSE.Drv
@@ -63,7 +64,33 @@ def canonJson (l : List (Shell String)) : Json :=
   Json.arr ((canonFuncs numVal l).map fun f =>
     Json.arr #[toJson f.1, Json.arr (f.2.map fun p => Json.arr #[ratJson p.1, ratJson p.2]).toArray]).toArray
 
+def decodePot (j : Json) : Except String (Pot String) := do
+  let am ← getNatList j "angular_momentum"
+  let ptype ← getStr j "ecp_type"
+  let rexp ← (← getArr j "r_exponents").mapM (·.getInt?)
+  let gexp ← getStrList j "gaussian_exponents"
+  let coefs ← (← getArr j "coefficients").mapM strList
+  pure { am, ptype, rexp, gexp, coefs }
+
+def potsParse (l : List (Pot String)) : Bool :=
+  l.all fun p => p.gexp.all (fun x => (parseNum x).isSome) && p.coefs.all (·.all fun x => (parseNum x).isSome)
+
 def handlers : List (String × Handler) := [
+  ("validate_el", fun j => do
+    let shells ← match j.getObjVal? "shells" with
+      | .ok (Json.arr a) => do pure (some (← a.toList.mapM decodeShell))
+      | _ => pure none
+    let pots ← match j.getObjVal? "pots" with
+      | .ok (Json.arr a) => do pure (some (← a.toList.mapM decodePot))
+      | _ => pure none
+    let hasE := match j.getObjVal? "ecp_electrons" with
+      | .ok (Json.num _) => true
+      | _ => false
+    if !((shells.map allParse).getD true && (pots.map potsParse).getD true) then
+      pure (obj [("err", Json.str "unparsable")])
+    else match validateElement numVal shells pots hasE with
+      | none => pure (obj [("ok", Json.bool true)])
+      | some e => pure (obj [("err", Json.str e.name)])),
   ("manip", fun j => do
     let fn ← getStr j "fn"
     let shells ← decodeShells j "shells"
